@@ -63,7 +63,7 @@ MAX_TENSOR = 120
 def model_ctor(ps, eps=None):
     """documented constructor rule -> (ps, is_zero_dist)."""
     ps = np.array(ps, dtype=float).copy()
-    eps = eps if eps else EPS_DEFAULT
+    eps = EPS_DEFAULT if eps is None else eps
     small = ps < eps
     if small.all():
         return np.zeros_like(ps), True
@@ -74,6 +74,8 @@ def model_ctor(ps, eps=None):
 
 
 def near_threshold(values, eps, rel=1e-6):
+    if eps == 0:
+        return False  # 'x < 0' has no rounding ambiguity
     v = np.asarray(values, dtype=float).reshape(-1)
     return bool(np.any(np.abs(v - eps) <= rel * eps))
 
@@ -161,10 +163,12 @@ def shape_st(draw, min_vars=1, max_vars=4):
 
 
 @st.composite
-def eps_st(draw):
-    kind = draw(st.sampled_from(["none", "none", "explicit_default", "small", "large"]))
+def eps_st(draw, allow_zero=False):
+    kind = draw(st.sampled_from(["none", "none", "explicit_default", "small", "large"] * (2 if allow_zero else 1) + (["zero"] if allow_zero else [])))
     if kind == "none":
         return None
+    if kind == "zero":
+        return 0.0  # "never treat a positive probability as zero"
     if kind == "explicit_default":
         return EPS_DEFAULT
     if kind == "small":
@@ -173,11 +177,14 @@ def eps_st(draw):
 
 
 @st.composite
-def tensor_st(draw, min_vars=1, max_vars=4, allow_zero_dist=True, eps=True, neg=True):
+def tensor_st(draw, min_vars=1, max_vars=4, allow_zero_dist=True, eps=True, neg=True, allow_eps0=False):
     shape = draw(shape_st(min_vars, max_vars))
     n = prod(shape)
-    e = draw(eps_st()) if eps else None
+    e = draw(eps_st(allow_eps0)) if eps else None
     e_eff = e if e else EPS_DEFAULT
+    if e == 0.0:
+        allow_zero_dist = False  # an all-zero vector is not a zero distribution under the threshold 0: not generated
+        e_eff = 1e-9  # 'sub' entries: positive, above the requested threshold 0, below the default one
     palette = ["big", "big", "big", "zero", "sub"] + (["neg"] if neg else [])
     if e is not None and e < 1e-9:
         palette += ["mid", "mid"]  # kept by the custom threshold but below the default one used by derived distributions
@@ -224,10 +231,10 @@ def _make_dist(case):
 def _tensor_labels(case, ctx):
     shape = case["shape"]
     e = case.get("eps_zero")
-    e_eff = e if e else EPS_DEFAULT
+    e_eff = EPS_DEFAULT if e is None else e
     ps = np.asarray(case["ps"], dtype=float)
     ctx.label(f"vars:{len(shape)}", "nonsquare" if is_nonsquare(shape) else "square-or-1d",
-              "eps:default" if e is None else ("eps:1e-8" if e == EPS_DEFAULT else ("eps:small" if e < EPS_DEFAULT else "eps:large")))
+              "eps:default" if e is None else ("eps:0" if e == 0 else ("eps:1e-8" if e == EPS_DEFAULT else ("eps:small" if e < EPS_DEFAULT else "eps:large"))))
     if np.any(ps == 0):
         ctx.label("has-zero")
     if np.any((ps > 0) & (ps < e_eff)):
@@ -250,9 +257,15 @@ def _valid_dist_obj(d, ctx, tag):
 
 
 # ----------------------------------------------------------------------------- facet: multinomial
+def is_explicit_zero_threshold(case):
+    """predicate of known finding C16-F1: eps_zero=0.0 passed explicitly (falsy, replaced by the default 1e-8)."""
+    e = case.get("eps_zero")
+    return e is not None and float(e) == 0.0
+
+
 @st.composite
 def multinomial_case(draw, tier):
-    c = draw(tensor_st())
+    c = draw(tensor_st(allow_eps0=True))
     c["reject"] = draw(st.sampled_from(["size", "negative", "sum", "sum_ok"]))
     c["reject_ratio"] = draw(gen.log_uniform(10.0, 1e6))
     c["accept_ratio"] = draw(gen.log_uniform(1e-4, 0.1))
@@ -280,7 +293,16 @@ def check_multinomial(case, ctx):
     ctx.equal(bool(d.is_zero_dist), exp_zero, "ctor:is_zero_dist")
     ctx.equal(float(d.eps_zero), float(e_eff), "ctor:eps_zero_property")
     got = np.asarray(d.ps, dtype=float)
-    ctx.close(got, exp, 4e-16, "ctor:zero_and_renormalise")
+    if case.get("eps_zero") == 0:
+        # ctx.check (not ctx.close) so that the known deviation does not enter the residual statistics
+        dev = float(np.max(np.abs(got - exp)))
+        ctx.check(dev <= 4e-16, "ctor:zero_and_renormalise", f"max|diff|={dev:.3e} with the explicit threshold 0.0")
+    else:
+        ctx.close(got, exp, 4e-16, "ctor:zero_and_renormalise")
+    if case.get("eps_zero") == 0:
+        # explicit threshold 0 (see known finding C16-F1): the remaining oracles are evaluated on the other classes
+        ctx.nontrivial(bool(np.any((ps_in > 0) & (ps_in < EPS_DEFAULT))))
+        return
     # exact zeros exactly where the rule says so; untouched when nothing is below the threshold
     ctx.equal([bool(x) for x in (got == 0)], [bool(x) for x in (ps_in < e_eff)] if not exp_zero else [True] * n, "ctor:zero_pattern")
     if not np.any(ps_in < e_eff):
